@@ -7,29 +7,30 @@ D="$W/out/$M"
 cd "$W" || exit 2
 git checkout -q -- . ; git checkout -q --detach $(git -C /repo rev-parse HEAD)
 DEMO=$(ls $D/demo.py $D/test_demo.py 2>/dev/null | head -1)
-echo "== demo without change"; (cd $W && timeout 600 /venv/bin/python $DEMO >/tmp/seed_demo_clean.log 2>&1); C0=$?
+echo "== demo without change"; (cd $W && timeout 600 /venv/bin/python $DEMO >/tmp/seed_demo_clean_$$.log 2>&1); C0=$?
 git apply "$D/patch.diff" || { echo "patch does not apply"; exit 2; }
-echo "== demo with change"; (cd $W && timeout 600 /venv/bin/python $DEMO >/tmp/seed_demo_mut.log 2>&1); C1=$?
+echo "== demo with change"; (cd $W && timeout 600 /venv/bin/python $DEMO >/tmp/seed_demo_mut_$$.log 2>&1); C1=$?
 echo "demo exit: clean=$C0 mutated=$C1"
 cd /verif
 if [ -n "$RUNS" ]; then R="--runs $RUNS"; else R=""; fi
-VERIF_REPO="$W" ./check $P $R > /tmp/seed_check.log 2>&1; CC=$?
-grep -v condarc /tmp/seed_check.log | grep "VIOLATION\|rule=\|runs=" | cut -c1-300 | head -6
+VERIF_REPO="$W" ./check $P $R > /tmp/seed_check_$$.log 2>&1; CC=$?
+grep -v condarc /tmp/seed_check_$$.log | grep "VIOLATION\|rule=\|runs=" | cut -c1-300 | head -6
 echo "check exit: $CC"
 cd "$W" && git checkout -q -- .
 mkdir -p /verif/seeded/$P-$NAME
 cp $D/patch.diff $D/meta.json /verif/seeded/$P-$NAME/ 2>/dev/null
 cp $DEMO /verif/seeded/$P-$NAME/
-python3 - "$P" "$NAME" "$C0" "$C1" "$CC" <<'PY'
+python3 - "$P" "$NAME" "$C0" "$C1" "$CC" "/tmp/seed_check_$$.log" <<'PY'
 import json,sys,re
-p,m,c0,c1,cc=sys.argv[1:6]
+p,m,c0,c1,cc,logf=sys.argv[1:7]
 d="/verif/seeded/%s-%s/"%(p,m)
 try: meta=json.load(open(d+"meta.json"))
 except Exception: meta={}
-log=open("/tmp/seed_check.log").read()
+log=open(logf).read()
 rules=sorted(set(re.findall(r"rule=(\S+)",log)))
 meta.update({"property":p,"confirmed":{"demo_exit_without_change":int(c0),"demo_exit_with_change":int(c1)},
   "check_result":{"cmd":"VERIF_REPO=<worktree with patch> ./check %s"%p,"exit":int(cc),"caught":int(cc)==1,"rules":rules}})
 json.dump(meta,open(d+"meta.json","w"),indent=1)
 print("stored",d,"caught=",int(cc)==1,rules)
 PY
+rm -f /tmp/seed_demo_clean_$$.log /tmp/seed_demo_mut_$$.log /tmp/seed_check_$$.log
